@@ -33,6 +33,7 @@ class V:
         self.E = c.f(self.dl, 'elems', st)
         self.n = c.f(self.dl, 'len', st)
         self.S, self.T = c.arr(Iv, '0', st), c.arr(Iv, '1', st)
+        self.alloc = st.alloc
 
     def start(self, j):
         return z3.Select(self.S, z3.Select(self.E, j))
@@ -112,7 +113,96 @@ FUNCS = ['IndexedSet._get_real_index', 'IndexedSet._get_apparent_index']
 
 def make_engine(repo):
     from pyvc.engine import Engine
-    eng = Engine(repo, FILE, classes=CLASSES, contracts=CONTRACTS)
+    eng = Engine(repo, FILE, classes=CLASSES, contracts=CONTRACTS, externals=dict(globals().get('EXTERNALS', {})),
+                 consts=dict(globals().get('CONSTS', {})))
     for c in ALL:
         eng.register_class(c)
     return eng
+
+
+# ---- _add_dead(start): the interval list stays sorted and disjoint and now covers `start` ----------------------------------------
+# The stronger, all-pairs form of the invariant is used here (it implies the neighbour form the index translation needs):
+#     for j < j':  stop(j) <= start(j')
+from pyvc.values import SFunc, SVal, Val, SExc  # noqa: E402
+
+
+def wf_all_pairs(v):
+    j, j2 = z3.Ints('j j2')
+    return [('dead intervals are non-empty, sorted and disjoint (all pairs)', z3.And(
+        v.n >= 0, v.dl.t >= 1, v.dl.t < v.alloc,
+        z3.ForAll([j], z3.Implies(z3.And(0 <= j, j < v.n), z3.And(0 <= v.start(j), v.start(j) < v.stop(j), z3.Select(v.E, j) >= 1,
+                                                                         z3.Select(v.E, j) < v.alloc))),
+        z3.ForAll([j, j2], z3.Implies(z3.And(0 <= j, j < j2, j2 < v.n), z3.And(v.stop(j) <= v.start(j2),
+                                                                              z3.Select(v.E, j) != z3.Select(v.E, j2))))))]
+
+
+def covered(v, x):
+    j = z3.Int('jc')
+    return z3.Exists([j], z3.And(0 <= j, j < v.n, v.start(j) <= x, x < v.stop(j)))
+
+
+def ext_bisect_left(eng, args, kwargs, st, node):
+    """bisect_left(a, x) on a list of [start, stop] cells ordered lexicographically (the all-pairs invariant makes it sorted):
+    returns p, 0 <= p <= len, with a[j] < x for j < p and a[j] >= x for j >= p"""
+    lst, cand = args
+    if not (isinstance(lst, SRef) and lst.cls is DL and isinstance(cand, SRef) and cand.cls is Iv):
+        raise Exception('bisect_left arguments')
+    s = st.copy()
+    p = s.fresh.const('bisect', z3.IntSort())
+    E, n = eng.hload(s, lst, 'elems'), eng.hload(s, lst, 'len')
+    S_, T_ = eng.heap_arr(s, Iv, '0'), eng.heap_arr(s, Iv, '1')
+    cs, ct = z3.Select(S_, cand.t), z3.Select(T_, cand.t)
+    j = z3.Int(s.fresh.name('jb'))
+    a, b = z3.Select(S_, z3.Select(E, j)), z3.Select(T_, z3.Select(E, j))
+    less = z3.Or(a < cs, z3.And(a == cs, b < ct))
+    s = s.assume(z3.And(0 <= p, p <= n, z3.ForAll([j], z3.Implies(z3.And(0 <= j, j < n), less == (j < p)))))
+    eng.trusted.add('bisect.bisect_left on a lexicographically sorted list of [start, stop] pairs: the insertion point p with '
+                    'a[j] < x exactly for j < p')
+    return [(SInt(p), s)]
+
+
+def ad_setup(eng, st, variant=None):
+    return dict(self=SRef(IS, z3.Int('self')), start=SInt(z3.Int('arg_start')), stop=SNone())
+
+
+def ad_requires(c):
+    v = V(c)
+    j = z3.Int('j')
+    start = c.a('start')
+    return wf_all_pairs(v) + [('start is a live slot: non-negative and inside no dead interval', z3.And(
+        start >= 0, c.sv('self').t >= 1, z3.ForAll([j], z3.Implies(z3.And(0 <= j, j < v.n), z3.Or(start < v.start(j), v.stop(j) <= start)))))]
+
+
+def ad_ensures(c):
+    o, v = V(c, c.old), V(c)
+    start = c.a('start')
+    j = z3.Int('j')
+    x = z3.Int('x')
+    return [('wf.' + l, f) for l, f in wf_all_pairs(v)] + [
+        ('start is now covered by a dead interval', covered(v, start)),
+        ('representation lemma: one interval [start, start+1) is inserted (the others keep their order) or one interval grows by exactly start',
+         z3.And(v.dl.t == o.dl.t, z3.Or(
+             z3.And(v.n == o.n + 1, z3.Exists([x], z3.And(
+                 0 <= x, x <= o.n, v.start(x) == start, v.stop(x) == start + 1,
+                 z3.ForAll([j], z3.Implies(z3.And(0 <= j, j < o.n), z3.And(
+                     v.start(z3.If(j < x, j, j + 1)) == o.start(j), v.stop(z3.If(j < x, j, j + 1)) == o.stop(j)))),
+                 z3.ForAll([j], z3.Implies(z3.And(0 <= j, j <= o.n, j != x), z3.And(
+                     v.start(j) == o.start(z3.If(j < x, j, j - 1)), v.stop(j) == o.stop(z3.If(j < x, j, j - 1)))))))),
+             z3.And(v.n == o.n, z3.ForAll([j], z3.Implies(z3.And(0 <= j, j < o.n), z3.Or(
+                 z3.And(v.start(j) == o.start(j), v.stop(j) == o.stop(j)),
+                 z3.And(v.start(j) == o.start(j), o.stop(j) == start, v.stop(j) == start + 1),
+                 z3.And(o.start(j) == start + 1, v.start(j) == start, v.stop(j) == o.stop(j))))))))),
+        ('exactly the slot start becomes dead: every other slot is dead afterwards iff it was before',
+         z3.ForAll([x], covered(v, x) == z3.Or(covered(o, x), x == start))),
+        ('the list object is kept', v.dl.t == o.dl.t)]
+
+
+add_dead = Contract('IndexedSet._add_dead', setup=ad_setup, requires=ad_requires, ensures=ad_ensures,
+                    modifies=lambda c: [('DeadList', 'elems'), ('DeadList', 'len'), ('DeadInterval', '0'), ('DeadInterval', '1')],
+                    local_types=dict(cand_int=REF(Iv), dint=REF(Iv)))
+add_dead.chain = True                         # the dead-set equality is proved from the representation lemma stated before it
+add_dead.aux = ('representation lemma', 'wf.')     # ... which is tied to the current representation: refuted => proof lost, not a violation
+CONTRACTS['IndexedSet._add_dead'] = add_dead
+FUNCS.append('IndexedSet._add_dead')
+EXTERNALS = {'bisect_left': ext_bisect_left}
+CONSTS = {'bisect_left': SFunc('extfunc', 'bisect_left')}
